@@ -17,7 +17,12 @@ RULE = ('exhaustive small scope (recording length x window length x all sorted s
         'query, sometimes a repeated query channel; TemplateModel.get_waveforms on generated dataset directories '
         '(raw only / store only / both / neither, store written by export_waveforms on the model traces or by '
         'save_spikes_subset_waveforms, 1-3 raw files, unmapped raw channels, int16/float32/float64 recordings, '
-        '4 spike_times dtypes, ids missing from the store, negative ids, channel_ids omitted). '
+        '4 spike_times dtypes, ids missing from the store, negative ids, channel_ids omitted; stores of one spike '
+        'and/or one channel column since phylib 7a5fdd8). Stage 3: _extract_waveform with channel_ids=None (all '
+        'channels); export_waveforms with an UNSORTED spike vector (outside the statement; clause 26); NpyWriter '
+        'used directly with every sequence of <= 3 chunks (row counts incl. 0) against declared first dimensions '
+        '0..3, plus random sequences with a chunk of another dtype / other trailing dimensions / one dimension '
+        'less (clause 27). '
         'Non-trivial = at least one spike whose window overflows the recording, touches a chunk/file '
         'boundary or uses a -1 channel, or (model route) a store is present; distinct = distinct abstract input.')
 EXHAUSTIVE = {'quick': True, 'thorough': True}
@@ -30,6 +35,10 @@ CLAUSES = {
         'zeros elsewhere; ids in any order, repeated; -1 anywhere in a stored row)',
     25: 'C03_route_model* (TemplateModel.get_waveforms on a dataset directory: a store holding the queried ids -> the '
         'store look-up, otherwise raw data -> the windows at spike_samples[spike_ids])',
+    26: 'C03_iter_any_order (UNSORTED spike vector, outside the statement): the exported file holds every spike\'s '
+        'window x factor exactly once, chunk by chunk in the order of the vector',
+    27: 'C03_npy_writer_iff / C03_export_bytes (NpyWriter directly): element count == declared shape and declared dtype '
+        'everywhere -> np.load (plain and mmap) gives the declared shape/dtype and the appended elements in order',
 }
 TRUSTED = ['np.save/np.load/.npy header and tobytes byte layout, np.memmap',
            'NumPy dtype promotion (tabulated in PV.C03.Model.promote, cross-checked on every export case)',
@@ -42,8 +51,9 @@ ASSUMES = ['spike samples are integers in [0, n_samples); the vector is sorted f
            'store look-ups: queried ids belong to the store; claimed on the channels stored for the spike (zeros '
            'elsewhere, which the model also predicts); when a channel other than -1 is queried twice only equality with '
            'the model is judged (only the last occurrence receives data: C03_ex_store_dup)',
-           'TemplateModel route: >= 2 spikes, window >= 2, >= 2 channels, stores of >= 2 spikes x >= 2 channel columns '
-           '(the loader squeezes singleton dimensions away); the store is exported by phylib itself from the '
+           'TemplateModel route: >= 2 spikes, window >= 2, >= 2 channels (the loader squeezes singleton dimensions of '
+           'the dataset arrays away), stores of >= 1 spike x >= 1 channel column (needs phylib 7a5fdd8: '
+           '_load_spike_waveforms no longer squeezes); the store is exported by phylib itself from the '
            "model's traces (export_waveforms, or save_spikes_subset_waveforms whose choice of spikes/channels is read back)",
            'values: integers x factors that are multiples of 1/2, every product exact in float64; one export case in '
            'five has samples at the top of the exact range of its sample type (int16 up to 32767, float32 with 24-bit '
@@ -172,6 +182,99 @@ def _store_case(i, rng, base):
 TDTYPES = ['uint64', 'int64', 'uint32', 'int32']
 
 
+def _unsorted_case(i, rng, sizes, nc, cs, samples, n, backend=None):
+    """export_waveforms with the spike vector in a non-sorted order (stage 3, clause 26)"""
+    c = _export_case(i, rng, sizes, nc, cs, samples, n, backend=backend)
+    sp = c['inp']['spikes']
+    for _ in range(4):
+        rng.shuffle(sp)
+        if [s for s, _ in sp] != sorted(s for s, _ in sp):
+            break
+    else:
+        sp.reverse()
+    c['inp'].pop('amp', None)
+    return {'kind': 'exportu', 'inp': c['inp']}
+
+
+def _npy_chunk(shape_tail, rows, dtype, v0, drop_axis=False):
+    return {'shape': (list(shape_tail) if drop_axis else [rows] + list(shape_tail)), 'dtype': dtype, 'v0': v0}
+
+
+def _npy_case(shape, dtype, rows, v0=1, mutate=None):
+    """NpyWriter(shape, dtype) + one append per entry of rows (row counts; -1 = a chunk of one row given WITHOUT
+    its leading axis); mutate = (index, 'dtype'|'tail'|'rank') perturbs one chunk"""
+    tail = shape[1:]
+    per = 1
+    for x in tail:
+        per *= x
+    chunks, v = [], v0
+    for j, r in enumerate(rows):
+        c = _npy_chunk(tail, 1 if r < 0 else r, dtype, v, drop_axis=(r < 0))
+        if mutate and mutate[0] == j:
+            if mutate[1] == 'dtype':
+                c['dtype'] = mutate[2]
+            elif mutate[1] == 'tail':
+                c['shape'] = c['shape'][:-1] + [c['shape'][-1] + 1] if len(c['shape']) > 1 else [c['shape'][0], 1]
+            elif mutate[1] == 'rank':
+                c['shape'] = [1] + c['shape']
+        chunks.append(c)
+        n = 1
+        for x in c['shape']:
+            n *= x
+        v += n
+    return {'kind': 'npy', 'inp': {'shape': list(shape), 'dtype': dtype, 'chunks': chunks}}
+
+
+def _compositions0(total, k):
+    """k-tuples of non-negative integers summing to total"""
+    if k == 0:
+        if total == 0:
+            yield []
+        return
+    for first in range(total + 1):
+        for rest in _compositions0(total - first, k - 1):
+            yield [first] + rest
+
+
+NPY_TAILS = [[1, 2], [2], [], [2, 1], [0, 2], [3]]
+
+
+def _npy_cases(quick, rng):
+    out, i = [], 0
+    for d0 in range(0, 4):
+        for total in range(0, 5 if quick else 6):
+            for k in range(0, 4):
+                for rows in _compositions0(total, k):
+                    i += 1
+                    out.append(_npy_case([d0] + _rot(NPY_TAILS, i), _rot(DTYPES, i // 2), rows, v0=1 + i % 7))
+    for j in range(150 if quick else 3000):
+        d0 = rng.randint(0, 5)
+        tail = rng.choice(NPY_TAILS)
+        total = rng.choice([d0, d0, d0, max(d0 - 1, 0), d0 + 1, d0 + 2, 0])
+        rows, left = [], total
+        while left > 0:
+            r = rng.randint(0, left)
+            rows.append(r)
+            left -= r
+        rows += [0] * rng.choice([0, 0, 1])
+        rng.shuffle(rows)
+        if rows and j % 4 == 1:
+            p = rng.randrange(len(rows))                      # one row given without its leading axis
+            if rows[p] >= 1:
+                rows[p:p + 1] = [rows[p] - 1, -1] if rows[p] > 1 else [-1]
+        dt = _rot(DTYPES, j)
+        mutate = None
+        if rows and j % 3 == 0:
+            what = _rot(['dtype', 'dtype', 'tail', 'rank'], j // 3)
+            mutate = (rng.randrange(len(rows)), what, rng.choice([d for d in DTYPES if d != dt]))
+        c = _npy_case([d0] + tail, dt, rows, v0=rng.randint(-3, 9), mutate=mutate)
+        if mutate and mutate[1] == 'dtype' and j % 2:          # every chunk in the other dtype (defect 7bdfb3a's shape)
+            for ch in c['inp']['chunks']:
+                ch['dtype'] = mutate[2]
+        out.append(c)
+    return out
+
+
 def _model_case(j, rng, nrmax=14):
     """TemplateModel.get_waveforms on a generated dataset directory: raw data and/or a subset store."""
     nr = rng.randint(2, nrmax)
@@ -189,13 +292,13 @@ def _model_case(j, rng, nrmax=14):
            'qkind': _rot(CKINDS, j // 3)}
     stored = []
     if mode in ('store', 'store+raw'):
-        k = rng.randint(2, ns)
+        k = rng.randint(1, ns)
         stored = sorted(rng.sample(range(ns), k))
-        w = rng.randint(2, 3)
+        w = rng.randint(1, 3)
         inp['store'] = {'via': 'export', 'ids': stored, 'table': _table(rng, stored, nc, w),
                         'factor': _rot(FKEYS, j // 4)}
     elif mode == 'save':
-        inp['store'] = {'via': 'save', 'nst': rng.choice([1, 2, 50]), 'mnc': rng.choice([None, 2, 14]),
+        inp['store'] = {'via': 'save', 'nst': rng.choice([1, 2, 50]), 'mnc': rng.choice([None, 1, 2, 14]),
                         'factor': _rot(['f1', 'fh', 'f25', 'np2'], j // 8)}
         stored = list(range(ns))
     # query: shuffled, repeated ids; sometimes an id the store does not hold, a negative (wrapping) id
@@ -316,6 +419,41 @@ CORPUS = [
                               'extra': 2, 'cmrot': 1, 'offset': 0, 'tdtype': 'uint64', 'raw': True,
                               'store': {'via': 'save', 'nst': 50, 'mnc': 2, 'factor': 'np2'},
                               'q_ids': [3, 0, 0], 'q_ch': [0, 1], 'qkind': 'i64'}},
+    # ---- stage 3 ----
+    # a store of exactly one spike / one channel column reloaded through TemplateModel (needs phylib 7a5fdd8: the
+    # loader squeezed the three _phy_spikes_subset arrays, get_waveforms then raised TypeError / IndexError)
+    {'kind': 'model', 'inp': {'sizes': [7], 'nc': 3, 'cs': 3, 'dtype': 'int16', 'samples': [0, 2, 2, 6], 'n': 4,
+                              'extra': 0, 'cmrot': 0, 'offset': 0, 'tdtype': 'uint64', 'raw': True,
+                              'store': {'via': 'export', 'ids': [1], 'table': [[0, 2]], 'factor': 'f25'},
+                              'q_ids': [1, 1], 'q_ch': [2, 0, 1], 'qkind': 'list'}},
+    {'kind': 'model', 'inp': {'sizes': [7], 'nc': 3, 'cs': 3, 'dtype': 'int16', 'samples': [0, 2, 2, 6], 'n': 4,
+                              'extra': 0, 'cmrot': 0, 'offset': 0, 'tdtype': 'uint64', 'raw': True,
+                              'store': {'via': 'export', 'ids': [1, 3], 'table': [[0], [2]], 'factor': 'f25'},
+                              'q_ids': [3, 1], 'q_ch': [2, 0], 'qkind': 'i64'}},
+    {'kind': 'model', 'inp': {'sizes': [7], 'nc': 3, 'cs': 3, 'dtype': 'float32', 'samples': [0, 2, 2, 6], 'n': 4,
+                              'extra': 0, 'cmrot': 0, 'offset': 0, 'tdtype': 'int64', 'raw': False,
+                              'store': {'via': 'export', 'ids': [3], 'table': [[2]], 'factor': 'i2'},
+                              'q_ids': [3], 'q_ch': [2, 0], 'qkind': 'list'}},
+    # _extract_waveform(traces, s, None, n): channel_ids=None = every channel; recording longer than wide, padding
+    # on both sides (the zero rows must have traces.shape[1] columns)
+    {'kind': 'extract', 'inp': {'sizes': [3], 'nc': 2, 'cs': 3, 'samples': [0, 2], 'n': 4, 'chans': [0, 1],
+                                'cfgs': [['ndarray', 'int16', 'int64', 'none'], ['flat', 'float32', 'uint64', 'none']]}},
+    # an UNSORTED spike vector over two chunks: the file is in chunk order, not in spike order (C03_ex_unsorted)
+    {'kind': 'exportu', 'inp': {'sizes': [3], 'nc': 2, 'cs': 2, 'backend': 'flat', 'dtype': 'int16',
+                                'spikes': [[2, [1, -1]], [0, [0, 1]]], 'n': 2, 'w': 2, 'factor': 'f1',
+                                'sdtype': 'int64', 'cache': False, 'threads': 1}},
+    # NpyWriter: empty chunk, a row, empty chunk, a row (exact); one row short; one row too many; int16 payload under
+    # a float64 header; other trailing dimensions; no chunk under a declared (0, 1, 2); a row without its leading axis
+    {'kind': 'npy', 'inp': {'shape': [2, 1, 2], 'dtype': 'float64', 'chunks': [
+        {'shape': [0, 1, 2], 'dtype': 'float64', 'v0': 1}, {'shape': [1, 1, 2], 'dtype': 'float64', 'v0': 5},
+        {'shape': [0, 1, 2], 'dtype': 'float64', 'v0': 1}, {'shape': [1, 1, 2], 'dtype': 'float64', 'v0': 7}]}},
+    {'kind': 'npy', 'inp': {'shape': [2, 1, 2], 'dtype': 'float64', 'chunks': [{'shape': [1, 1, 2], 'dtype': 'float64', 'v0': 5}]}},
+    {'kind': 'npy', 'inp': {'shape': [2, 1, 2], 'dtype': 'float64', 'chunks': [{'shape': [3, 1, 2], 'dtype': 'float64', 'v0': 5}]}},
+    {'kind': 'npy', 'inp': {'shape': [2, 1, 2], 'dtype': 'float64', 'chunks': [{'shape': [2, 1, 2], 'dtype': 'int16', 'v0': 5}]}},
+    {'kind': 'npy', 'inp': {'shape': [2, 1, 2], 'dtype': 'float64', 'chunks': [{'shape': [2, 2, 1], 'dtype': 'float64', 'v0': 5}]}},
+    {'kind': 'npy', 'inp': {'shape': [0, 1, 2], 'dtype': 'float64', 'chunks': []}},
+    {'kind': 'npy', 'inp': {'shape': [2, 1, 2], 'dtype': 'float32', 'chunks': [
+        {'shape': [1, 2], 'dtype': 'float32', 'v0': 5}, {'shape': [1, 1, 2], 'dtype': 'float32', 'v0': 7}]}},
 ]
 
 
@@ -326,6 +464,14 @@ def generate(tier, rng):
             cases += _random_cases(i, rng, 30, 7)
         for i in range(600):
             cases.append(_model_case(i, rng, 20))
+        for i in range(300):
+            nr = rng.randint(2, 30)
+            sizes = _rand_sizes(rng, nr, 3)
+            cs = rng.randint(1, nr)
+            n = rng.randint(1, 7)
+            cases.append(_unsorted_case(i, rng, sizes, rng.randint(1, 4), cs,
+                                        _biased_samples(rng, nr, sizes, cs, n, rng.randint(2, 6)), n))
+        cases += _npy_cases(False, rng)
         return cases
     quick = tier == 'quick'
     i = 0
@@ -375,6 +521,38 @@ def generate(tier, rng):
     # ---- random larger
     for j in range(500 if quick else 6000):
         cases += _random_cases(j, rng, 40, 9)
+    # ---- stage 3: channel_ids=None (all channels) through _extract_waveform directly
+    k = 0
+    for nr in range(1, 6 if quick else 9):
+        for n in range(1, 6):
+            for samples in _multisets(nr, 1 if quick else 2):
+                for nc in ((2,) if quick else (1, 2, 3)):
+                    k += 1
+                    rb = _rot(['flat', 'array', 'flat', 'array', 'flat', 'cbin', 'array'], k)
+                    cases.append({'kind': 'extract', 'inp': {
+                        'sizes': [nr], 'nc': nc, 'cs': 1 + k % nr, 'samples': samples, 'n': n, 'chans': list(range(nc)),
+                        'cfgs': [['ndarray', _rot(DTYPES, k), _rot(SDTYPES, k), 'none'],
+                                 [rb, _rot(DTYPES, k + 1), _rot(SDTYPES, k + 2), 'none']]}})
+    # ---- stage 3: unsorted spike vectors (exhaustive small scope: every ordered pair / triple, then random)
+    k = 0
+    for nr in range(2, 5 if quick else 7):
+        for cs in range(1, nr + 1):
+            for samples in itertools.product(range(nr), repeat=2):
+                if samples[0] > samples[1]:
+                    k += 1
+                    c = _export_case(k, rng, [nr], 2, cs, list(samples), 1 + k % 4,
+                                     backend=_rot(['flat', 'array', 'flat', 'array', 'cbin'], k))
+                    c['inp'].pop('amp', None)
+                    cases.append({'kind': 'exportu', 'inp': c['inp']})
+    for j in range(60 if quick else 1500):
+        nr = rng.randint(2, 16)
+        sizes = _rand_sizes(rng, nr, 3)
+        cs = rng.randint(1, nr)
+        n = rng.randint(1, 6)
+        cases.append(_unsorted_case(j, rng, sizes, rng.randint(1, 3), cs,
+                                    _biased_samples(rng, nr, sizes, cs, n, rng.randint(2, 5)), n))
+    # ---- stage 3: NpyWriter directly
+    cases += _npy_cases(quick, rng)
     return cases
 
 
@@ -519,8 +697,14 @@ def run_case(case):
                     os.mkdir(sub)
                     tr, close, _ = _traces(np, sub, backend, i['sizes'], i['nc'], i['cs'], dtype)
                     try:
-                        out = extract_waveforms(tr, _samples(np, i['samples'], sdtype), _chans(np, i['chans'], ckind),
-                                                n_samples_waveforms=i['n'])
+                        if ckind == 'none':
+                            # channel_ids=None (every channel): only _extract_waveform accepts it
+                            from phylib.io.traces import _extract_waveform
+                            ws = [_extract_waveform(tr, s, None, i['n']) for s in _samples(np, i['samples'], sdtype)]
+                            out = np.stack(ws) if ws else np.zeros((0, i['n'], i['nc']), dtype=dtype)
+                        else:
+                            out = extract_waveforms(tr, _samples(np, i['samples'], sdtype), _chans(np, i['chans'], ckind),
+                                                    n_samples_waveforms=i['n'])
                         res = _canon(np, out)
                     finally:
                         if close:
@@ -539,13 +723,15 @@ def run_case(case):
                 else:
                     folded.append([key, [cfg], res])
             return ('multi', [[f[2], f[1]] for f in folded])
-        if k in ('export', 'store'):
+        if k == 'npy':
+            return _run_npy(np, d, i)
+        if k in ('export', 'store', 'exportu'):
             path, chunkinfo = _do_export(np, d, i)
             try:
                 w = np.load(path, mmap_mode='r' if k == 'store' else None)
             except Exception as e:  # noqa
                 return ('unloadable', type(e).__name__, str(e)[:120], chunkinfo)
-            if k == 'export':
+            if k in ('export', 'exportu'):
                 return ('file', _canon(np, w, 2), chunkinfo)
             from phylib.io.traces import get_spike_waveforms
             from phylib.utils import Bunch
@@ -563,6 +749,47 @@ def run_case(case):
         raise ValueError(k)
     finally:
         shutil.rmtree(d, ignore_errors=True)
+
+
+def _npy_values(np, c):
+    n = 1
+    for x in c['shape']:
+        n *= x
+    return (c['v0'] + np.arange(n)).reshape(c['shape']).astype(c['dtype'])
+
+
+def _run_npy(np, d, i):
+    from phylib.io.traces import NpyWriter
+    path = os.path.join(d, 'x.npy')
+    w = NpyWriter(path, tuple(i['shape']), np.dtype(i['dtype']))
+    asserted = False
+    try:
+        for c in i['chunks']:
+            w.append(_npy_values(np, c))
+    except AssertionError:
+        asserted = True
+    finally:
+        w.close()
+    if asserted:
+        return ('npy', [['assert']])
+    same = all(c['dtype'] == i['dtype'] for c in i['chunks'])
+    res = []
+    for mm in (None, 'r'):
+        try:
+            a = np.load(path, mmap_mode=mm)
+        except Exception as e:  # noqa  (a modelled outcome: too few bytes)
+            res.append(['unloadable', type(e).__name__])
+            continue
+        flat = []
+        if same:          # otherwise the bytes of another dtype are reinterpreted: only shape/dtype are compared
+            v = np.asarray(a).astype(np.float64).ravel()
+            if not np.all(v == np.round(v)):
+                res.append(['garbage', a.dtype.name])
+                continue
+            flat = [int(x) for x in v]
+        res.append(['load', a.dtype.name, [int(x) for x in a.shape], flat])
+        del a
+    return ('npy', res)
 
 
 def _run_model(np, d, i):
@@ -622,9 +849,36 @@ def _chunking(i, chunkinfo):
     return q.app('Flat', q.zl(i['sizes']), q.z(i['cs']))
 
 
+DT = {'int16': 'I16', 'float32': 'F32', 'float64': 'F64'}
+
+
+def _encode_npy(i, obs, crash):
+    def arr(c):
+        n = 1
+        for x in c['shape']:
+            n *= x
+        return '(mkarr %s %s %s)' % (q.zl(c['shape']), DT[c['dtype']], q.zl([c['v0'] + j for j in range(n)]))
+    cin = q.app('InNpy', q.zl(i['shape']), DT[i['dtype']], q.lst(i['chunks'], arr))
+    if crash:
+        return cin, 'ObsCrash'
+    items = []
+    for r in obs[1]:
+        if r[0] == 'assert':
+            items.append('ObsAssert')
+        elif r[0] == 'unloadable':
+            items.append('ObsUnloadable')
+        elif r[0] == 'load' and r[1] in DT:
+            items.append(q.app('ObsLoad', DT[r[1]], q.zl(r[2]), q.zl(r[3])))
+        else:
+            items.append('ObsCrash')
+    return cin, (items[0] if len(items) == 1 else q.app('ObsMany', q.lst(items)))
+
+
 def encode(case, obs):
     k, i = case['kind'], case['inp']
     crash = obs[0] == 'crash'
+    if k == 'npy':
+        return _encode_npy(i, obs, crash)
     nr = sum(i['sizes'])
     if k == 'extract':
         cin = q.app('InExtract', q.z(nr), q.z(i['nc']), q.zl(i['samples']), q.z(i['n']), q.zl(i['chans']))
@@ -639,8 +893,8 @@ def encode(case, obs):
     f2 = f2 * i.get('amp', 1)     # samples = amp x (10 r + c + 1): the amplitude is folded into the unit factor of the model
     common = [q.z(nr), q.z(i['nc']), _chunking(i, chunkinfo), _spikes(i['spikes']), q.z(i['n']), q.z(i['w']),
               fk, q.z(f2)]
-    if k == 'export':
-        cin = q.app('InExport', *common)
+    if k in ('export', 'exportu'):
+        cin = q.app('InExport' if k == 'export' else 'InExportAny', *common)
         if crash:
             return cin, 'ObsCrash'
         if obs[0] == 'unloadable':
@@ -718,6 +972,8 @@ def nontrivial(case, obs):
     if obs[0] == 'crash':
         return False
     k, i = case['kind'], case['inp']
+    if k == 'npy':
+        return len(i['chunks']) > 0
     if k == 'extract':
         return any(_touches(i, s, i['n']) for s in i['samples']) or -1 in i['chans']
     if k == 'model':
@@ -730,8 +986,33 @@ def _bucket(n):
     return str(n) if n <= 3 else '4-9' if n <= 9 else '10+'
 
 
+def _npy_total(i):
+    t = 0
+    for c in i['chunks']:
+        n = 1
+        for x in c['shape']:
+            n *= x
+        t += n
+    return t
+
+
 def dist(case, obs):
     k, i = case['kind'], case['inp']
+    if k == 'npy':
+        want = 1
+        for x in i['shape']:
+            want *= x
+        tot = _npy_total(i)
+        out = ['kind=npy', 'npy.rank=%d' % len(i['shape']), 'npy.dtype=' + i['dtype'], 'npy.chunks=%s' % _bucket(len(i['chunks'])),
+               'npy.count=%s' % ('exact' if tot == want else 'short' if tot < want else 'long'),
+               'npy.empty_chunk=%s' % any(0 in c['shape'] for c in i['chunks']),
+               'npy.other_dtype=%s' % any(c['dtype'] != i['dtype'] for c in i['chunks']),
+               'npy.row_without_axis=%s' % any(len(c['shape']) != len(i['shape']) for c in i['chunks'])]
+        if obs[0] == 'crash':
+            out.append('crash=' + obs[1])
+        else:
+            out += ['npy.outcome=' + r[0] for r in obs[1]]
+        return out
     nr = sum(i['sizes'])
     out = ['kind=' + k, 'files=%d' % len(i['sizes']), 'len=%s' % _bucket(nr), 'window=%s' % ('odd' if i['n'] % 2 else 'even'),
            'window_vs_len=%s' % ('longer' if i['n'] > nr else 'fits')]
@@ -777,6 +1058,8 @@ def dist(case, obs):
 
 def size(case):
     i = case['inp']
+    if case['kind'] == 'npy':
+        return len(i['chunks']) * 10 + _npy_total(i) + sum(i['shape']) + len(i['shape'])
     if case['kind'] == 'model':
         st = i.get('store') or {}
         return (sum(i['sizes']) * 10 + len(i['samples']) * 20 + i['n'] * 5 + len(i['sizes']) * 5 + len(i['q_ids']) * 5 +
@@ -839,6 +1122,17 @@ def shrink(case):
     if k == 'model':
         for c in _shrink_model(case):
             yield c
+        return
+    if k == 'npy':
+        ch = i['chunks']
+        for d in range(len(ch)):
+            yield {'kind': 'npy', 'inp': dict(i, chunks=ch[:d] + ch[d + 1:])}
+        for d in range(len(ch)):
+            if ch[d]['shape'] and ch[d]['shape'][0] > 0:
+                c2 = dict(ch[d], shape=[ch[d]['shape'][0] - 1] + ch[d]['shape'][1:])
+                yield {'kind': 'npy', 'inp': dict(i, chunks=ch[:d] + [c2] + ch[d + 1:])}
+        if i['shape'][0] > 0:
+            yield {'kind': 'npy', 'inp': dict(i, shape=[i['shape'][0] - 1] + i['shape'][1:])}
         return
 
     def mk(**kw):
